@@ -329,7 +329,7 @@ func buffersOnly(p *interpgen.Program) {
 // the implementation. The verdict is not interesting here; panics and caller-buffer changes are.
 func sigShapes(r *common.Rand, emitp func(*interpgen.Program), n int) {
 	junkSig := func() []byte {
-		return append(r.Bytes(8+r.Intn(64)), []byte{0x01, 0x41, 0x02, 0xc3, 0x00, 0x03, 0x83, 0x43, 0x82, 0x81}[r.Intn(10)])
+		return append(r.Bytes(8+r.Intn(64)), []byte{0x01, 0x41, 0x02, 0xc3, 0x00, 0x03, 0x83, 0x43, 0x82, 0x81, 0x23, 0xa3, 0x63, 0x1f, 0x7f, 0xe3, byte(r.U64())}[r.Intn(17)])
 	}
 	junkKey := func() []byte {
 		k := r.Bytes(33)
@@ -371,8 +371,18 @@ func sigShapes(r *common.Rand, emitp func(*interpgen.Program), n int) {
 			lock = append(lock, 0xac)
 		case 1:
 			lock = append(lock, 0xad, 0x51)
-		case 2: // 1-of-1 multisig around the pushed things
-			lock = append(append([]byte{0x51}, interpgen.Push(junkKey())...), 0x51, 0xae)
+		case 2: // 1-of-1 multisig around the pushed things; 1-of-2 / 1-of-3 with keys that parse (the generator point
+			// and its double), so that a signature that does not parse is tried against more than one key
+			g1 := common.Unhex("0279be667ef9dcbbac55a06295ce870b07029bfcdb2dce28d959f2815b16f81798")
+			g2 := common.Unhex("02c6047f9441ed7d6d3045406e95c07cd85c778e4b8cef3ca7abac09b95c709ee5")
+			switch r.Intn(3) {
+			case 0:
+				lock = append(append([]byte{0x51}, interpgen.Push(junkKey())...), 0x51, 0xae)
+			case 1:
+				lock = append(append(append([]byte{0x51}, interpgen.Push(g1)...), interpgen.Push(g2)...), 0x52, 0xae)
+			default:
+				lock = append(append(append(append([]byte{0x51}, interpgen.Push(g2)...), interpgen.Push(junkKey())...), interpgen.Push(g1)...), 0x53, 0xae)
+			}
 			unlock = append([]byte{0x00}, unlock...)
 		case 3:
 			lock = append(lock, 0x76, 0xa9, 0x75, 0xac)
